@@ -63,8 +63,13 @@ theorem mergeSingle_names (P : String → Prop) (a b : Atom) (isAnd : Bool) (ha 
     (h : mergeSingle a b isAnd = some m) : GAll (NameIn P) m := by
   have hexpr : ∀ x : Atom, P x.name → GAll (NameIn P) (.expr x) := by
     intro x hx; simp only [GAll, NameIn, singleName?, Option.some.injEq]; intro n hn; rw [← hn]; exact hx
+  by_cases hsame : a.beq b = true
+  · unfold mergeSingle at h
+    rw [if_pos hsame] at h
+    cases h
+    exact hexpr a ha
   replace h : mergeSingleCore a b isAnd = some m := by
-    unfold mergeSingle at h; split at h
+    unfold mergeSingle at h; rw [if_neg hsame] at h; split at h
     · exact h
     · simp at h
   unfold mergeSingleCore at h
